@@ -271,6 +271,10 @@ class Shadow:
         if isinstance(e, ast.Attribute):
             if isinstance(e.value, ast.Name) and e.value.id in ("torch", "math") and e.attr == "inf":
                 return self.sym("inf")
+            if isinstance(e.value, ast.Name) and e.value.id not in fr:
+                d0 = self.repo.resolve_dotted(fi.module, e.value.id)
+                if self.repo.class_by_dotted(d0) is not None:
+                    return f"<{e.value.id}.{e.attr}>"  # enum member / class attribute: an opaque constant
             base = self.ev(e.value, fr, fi) if not (isinstance(e.value, ast.Name) and e.value.id in ("torch",)) else None
             if isinstance(base, Obj):
                 if e.attr not in base.fields:
@@ -278,6 +282,8 @@ class Shadow:
                 return base.fields[e.attr]
             if isinstance(base, Cell) and e.attr in ("T", "mT"):
                 return Cell(Rat.app(self.atoms, "transpose", (base.v,)))
+            if isinstance(base, Cell) and e.attr in ("shape", "dtype", "device", "ndim"):
+                return "<tensor-meta>"
             raise Unsupported(f"attribute {ast.unparse(e)[:50]}")
         if isinstance(e, ast.Subscript):
             nm, key = A.subscript_key(self.repo, fi.module, e)
@@ -292,6 +298,8 @@ class Shadow:
                 return base.elem
             if isinstance(base, tuple) and isinstance(e.slice, ast.Constant):
                 return base[e.slice.value]
+            if isinstance(base, str):
+                return base
             raise Unsupported(f"subscript {ast.unparse(e)[:50]}")
         if isinstance(e, ast.BinOp):
             return self.binop(e.op, self.ev(e.left, fr, fi), self.ev(e.right, fr, fi))
